@@ -581,6 +581,110 @@ Section L.
     - apply (proj2 (valid_sub_unfold _ _ _ _)). exact Hv'.
   Qed.
 
+  (* ---------------------------------------------------------------------------------------- *)
+  (* from the library's own notion of a valid state to deep validity                           *)
+  (* ---------------------------------------------------------------------------------------- *)
+  Definition normal_pair (c : cfg) (kn : str * node) : Prop :=
+    match dget (fst kn) (c_data c) with Some v' => normal_slot (snd kn) v' | None => False end.
+  Definition normal_cfg (dynamic : bool) (fs : list (str * node)) (c : cfg) : Prop :=
+    tidy fs dynamic c /\ NoDup (map fst fs) /\ Forall (normal_pair c) fs.
+
+  Lemma normal_sub_unfold : forall dyn vs fs c, normal_slot (NSub dyn vs fs) (VCfg c) <-> normal_cfg dyn fs c.
+  Proof.
+    intros. cbn [Roundtrip.normal_slot]. unfold normal_cfg.
+    match goal with |- (_ /\ _ /\ ?g fs) <-> _ => assert (G : forall l, g l <-> Forall (normal_pair c) l) end.
+    { induction l as [|[k nd'] l IH]; [split; intro; [constructor | exact I]|].
+      cbv beta iota fix. fold (normal_slot). split.
+      - intros [H1 H2]. constructor; [exact H1 | apply IH; exact H2].
+      - intro H. inversion H; subst. split; [assumption | apply IH; assumption]. }
+    rewrite G. reflexivity.
+  Qed.
+
+  Lemma normal_list_unfold : forall req vs fs l,
+    normal_slot (NCfgList req vs fs) (VList l) <->
+    Forall (fun it => normal_cfg false fs it /\ validate_errs (NSub false vs fs) [] (VCfg it) = []) l.
+  Proof.
+    intros req vs fs. induction l as [|it l IH]; [split; intro; [constructor | exact I]|]. split.
+    - intro H. change ((normal_slot (NSub false vs fs) (VCfg it) /\ validate_errs (NSub false vs fs) [] (VCfg it) = [])
+                       /\ normal_slot (NCfgList req vs fs) (VList l)) in H.
+      destruct H as [[H1 H2] H3]. constructor; [split; [apply normal_sub_unfold in H1; exact H1 | exact H2] | apply IH; exact H3].
+    - intro H. inversion H as [|? ? [H1 H2] H3]; subst.
+      change ((normal_slot (NSub false vs fs) (VCfg it) /\ validate_errs (NSub false vs fs) [] (VCfg it) = [])
+              /\ normal_slot (NCfgList req vs fs) (VList l)).
+      split; [split; [apply (proj2 (normal_sub_unfold _ _ _ _)); exact H1 | exact H2] | apply IH; exact H3].
+  Qed.
+
+  Notation has_disabled := (has_disabled F lflag).
+  Definition dis_pair (c : cfg) (kn : str * node) : bool :=
+    match dget (fst kn) (c_data c) with Some v' => has_disabled (snd kn) v' | None => false end.
+
+  Lemma dis_sub_unfold : forall dyn vs fs c,
+    has_disabled (NSub dyn vs fs) (VCfg c) = negb (feature_enabled fs (c_data c)) || existsb (dis_pair c) fs.
+  Proof.
+    intros. cbn [Roundtrip.has_disabled]. f_equal.
+    induction fs as [|[k nd'] l IH]; [reflexivity|]. cbn [existsb]. rewrite <- IH. reflexivity.
+  Qed.
+  Lemma dis_list_unfold : forall req vs fs l,
+    has_disabled (NCfgList req vs fs) (VList l) = existsb (fun it => has_disabled (NSub false [] fs) (VCfg it)) l.
+  Proof.
+    intros req vs fs. induction l as [|it l IH]; [reflexivity|]. cbn [existsb]. rewrite <- IH. reflexivity.
+  Qed.
+
+  Lemma existsb_false : forall {A} (f : A -> bool) l, existsb f l = false -> forall x, In x l -> f x = false.
+  Proof.
+    intros A f l H x Hin. destruct (f x) eqn:E; [|reflexivity].
+    assert (existsb f l = true) by (apply existsb_exists; exists x; split; assumption). congruence.
+  Qed.
+
+  Lemma bridge_n : forall n dyn vs fs, (fsize F fs < n)%nat -> forall c p, normal_cfg dyn fs c ->
+    validate_errs (NSub dyn vs fs) p (VCfg c) = [] -> has_disabled (NSub dyn vs fs) (VCfg c) = false -> valid_cfg dyn vs fs c.
+  Proof.
+    induction n as [|n IH]; intros dyn vs fs Hsz c p Hn Hve Hd; [lia|].
+    destruct c as [i d df dy]. rewrite dis_sub_unfold in Hd. apply orb_false_elim in Hd. destruct Hd as [Hen Hex].
+    apply negb_false_iff in Hen. cbn [c_data] in Hen.
+    destruct (validated_means F lvalidate lflag vrun dyn vs fs p i d df dy Hve Hen) as (M1 & M2 & M3 & M4).
+    destruct Hn as (Ht & Hnd & Hf).
+    split; [exact Ht | split; [exact Hnd | split; [|intros _; exact M4]]].
+    apply Forall_forall. intros [k nd] Hin. rewrite Forall_forall in Hf. specialize (Hf _ Hin).
+    pose proof (existsb_false _ _ Hex _ Hin) as Hdk. unfold dis_pair in Hdk. unfold normal_pair in Hf. unfold valid_pair.
+    cbn [fst snd c_data] in *. pose proof (fsize_in F _ _ _ Hin) as Hs.
+    destruct (dget k d) as [v'|] eqn:Hg; [|destruct Hf].
+    destruct nd as [f|d1 v1 f1|req v1 f1].
+    - destruct v' as [x| |]; try (destruct Hf; fail). cbn [Roundtrip.normal_slot] in Hf. cbn [Roundtrip.valid_slot].
+      destruct Hf as [Hf|[e He]]; [exact Hf|]. exfalso. exact (M1 k f x Hin Hg e He).
+    - destruct v' as [|sub|]; try (destruct Hf; fail). apply normal_sub_unfold in Hf.
+      apply (proj2 (valid_sub_unfold _ _ _ _)).
+      apply (IH d1 v1 f1 ltac:(rewrite nsize_sub in Hs; lia) sub (path_join p k) Hf); [eapply M3; eauto | exact Hdk].
+    - destruct v' as [x| |l]; try (destruct Hf; fail).
+      + destruct x; try (destruct Hf; fail). cbn [Roundtrip.valid_slot].
+        destruct req; [|reflexivity]. exfalso. destruct (M2 k true v1 f1 Hin eq_refl) as [H1 _]. apply H1. exact Hg.
+      + apply (proj2 (valid_list_unfold _ _ _ _)). split.
+        * intros Hr Hl. subst. destruct (M2 k true v1 f1 Hin eq_refl) as [_ H2]. apply H2. exact Hg.
+        * apply normal_list_unfold in Hf. rewrite dis_list_unfold in Hdk.
+          apply Forall_forall. intros it Hit. rewrite Forall_forall in Hf. destruct (Hf _ Hit) as [Hn1 Hn2].
+          assert (Hs' : (fsize F f1 < n)%nat).
+          { change (nsize F (NCfgList req v1 f1)) with (nsize F (NSub false v1 f1)) in Hs. rewrite nsize_sub in Hs. lia. }
+          apply (IH false v1 f1 Hs' it [] Hn1 Hn2).
+          pose proof (existsb_false _ _ Hdk _ Hit) as Hd2. cbv beta in Hd2. rewrite dis_sub_unfold in *. exact Hd2.
+  Qed.
+
+  (* (4) the statement in the library's own terms: every stored value normal, the library's whole-configuration
+     validation reports nothing, and no configuration at any depth has its feature flag off (the region of F36) *)
+  Theorem roundtrip_partial : forall dyn vs fs c,
+    Normal F lvalidate lflag vrun dyn fs c ->
+    validate_errs (NSub dyn vs fs) [] (VCfg c) = [] ->
+    known_F36 F lflag fs c = false ->
+    forall w w0 fresh, build_cfg w fs = (w0, fresh) ->
+    exists t w' c', to_tree None fs c = Ok t /\
+      load_tree t true w0 [] fresh dyn vs fs = (w', c', OOk) /\
+      same_values F fs c' c /\ deep_valid F lvalidate lflag vrun dyn vs fs c'.
+  Proof.
+    intros dyn vs fs c Hn Hv Hk. apply tree_roundtrip. unfold deep_valid. apply (proj2 (valid_sub_unfold _ _ _ _)).
+    unfold Normal in Hn. apply normal_sub_unfold in Hn. unfold known_F36 in Hk.
+    eapply (bridge_n (S (fsize F fs))); [apply Nat.lt_succ_diag_r | exact Hn | exact Hv |].
+    rewrite dis_sub_unfold in *. exact Hk.
+  Qed.
+
   (* (3) with a document codec that decodes what it encodes on its domain: loads (dumps c) fresh ≈ c *)
   Section Codec.
     Variable B : Type.
